@@ -14,7 +14,11 @@
 #include <sys/socket.h>
 #include <sys/stat.h>
 #include <fcntl.h>
+#include <signal.h>
 #include <map>
+#include <thread>
+#include <atomic>
+#include <mutex>
 
 using namespace FIX8;
 
@@ -231,10 +235,21 @@ static std::string delivered_json(World& w)
 	return s + "]";
 }
 
-static std::string g_wname("a");
+static std::string g_wname("a"), g_prefetched;
 static void emit(World& w, const char *e, const std::string& pre, const std::string& args, bool ret, const std::string& exc = "")
 {
-	const std::string raw(drain(w));
+	std::string raw(g_prefetched + drain(w));
+	g_prefetched.clear();
+	if (w.flags.count("pmodel") && w.flags["pmodel"] == "pipeline")
+	{
+		// the writer thread sends asynchronously: wait until the socket has been quiet for 3 ms (at most 300 ms)
+		for (int quiet(0), spins(0); quiet < 3 && spins < 300; ++spins)
+		{
+			usleep(1000);
+			const std::string more(drain(w));
+			if (more.empty()) ++quiet; else { quiet = 0; raw += more; }
+		}
+	}
 	const std::string out(msgs_json(raw));
 	std::string s("{\"e\":\"");
 	s += e; s += "\",\"w\":\"" + g_wname + "\",\"outhex\":\"" + (g_outhex ? pj::hex(raw) : "") + "\"";
@@ -336,16 +351,19 @@ static int connect_session(World& w, unsigned sseq, unsigned rseq)
 	// the socketpair is connected already (ClientConnection::connect would dial TCP)
 	struct PConn : Connection
 	{
-		PConn(Poco::Net::StreamSocket *s, Poco::Net::SocketAddress& a, Session& ses, Role r, unsigned hb)
-			: Connection(s, a, ses, r, pm_thread, hb, false) { _connected = true; }
+		PConn(Poco::Net::StreamSocket *s, Poco::Net::SocketAddress& a, Session& ses, Role r, unsigned hb, ProcessModel pm)
+			: Connection(s, a, ses, r, pm, hb, false) { _connected = true; }
 	};
-	w.con = new PConn(w.sock, w.addr, *w.ses, w.initiator ? Connection::cn_initiator : Connection::cn_acceptor, w.hb);
+	const bool pipe(w.flags.count("pmodel") && w.flags["pmodel"] == "pipeline");
+	w.con = new PConn(w.sock, w.addr, *w.ses, w.initiator ? Connection::cn_initiator : Connection::cn_acceptor, w.hb,
+		pipe ? pm_pipeline : pm_thread);
 	return w.ses->start(w.con, false, sseq, rseq);
 }
 
 int main(int argc, char **argv)
 {
 	pj::install_terminate();
+	signal(SIGPIPE, SIG_IGN);
 	GlobalLogger::set_levels(Logger::Levels(Logger::None));
 	std::map<std::string, World> worlds;     // "@b <cmd>" addresses world b; default world is "a"
 	std::string line;
@@ -406,6 +424,61 @@ int main(int argc, char **argv)
 				const size_t r(w.ses->send_batch(v, true));
 				emit(w, "SendBatch", pre, "\"ids\":" + ids + "],\"n\":" + std::to_string(r), r == v.size());
 			}
+			else if (c == "sendpar")   // sendpar <threads> <per_thread> <batch>: concurrent application senders
+			{
+				const std::string pre(state_json(w));
+				const unsigned nt(strtoul(t[1].c_str(), 0, 10)), per(strtoul(t[2].c_str(), 0, 10)), bs(strtoul(t[3].c_str(), 0, 10));
+				std::string got;
+				std::mutex gm;
+				std::atomic<bool> stop_reader(false);
+				std::thread rd([&]() {         // the counterparty keeps reading while the senders run
+					char buf[65536];
+					while (!stop_reader)
+					{
+						const ssize_t n(recv(w.peerfd, buf, sizeof buf, MSG_DONTWAIT));
+						if (n > 0) { std::lock_guard<std::mutex> g(gm); got.append(buf, n); } else usleep(200);
+					}
+				});
+				std::atomic<int> go(0);
+				std::vector<std::thread> th;
+				for (unsigned ti(0); ti < nt; ++ti)
+					th.emplace_back([&, ti]() {
+						++go;
+						while (go < static_cast<int>(nt)) ;    // start together
+						for (unsigned k(0); k < per; )
+						{
+							if (bs > 1)
+							{
+								std::vector<Message *> v;
+								for (unsigned j(0); j < bs && k < per; ++j, ++k)
+									v.push_back(new_order("m" + std::to_string((ti + 1) * 1000 + k + 1)));
+								w.ses->send_batch(v, true);
+							}
+							else
+							{
+								w.ses->send(new_order("m" + std::to_string((ti + 1) * 1000 + k + 1)));
+								++k;
+							}
+						}
+					});
+				for (auto& x : th) x.join();
+				const size_t want(static_cast<size_t>(nt) * per);
+				for (int spin(0); spin < 4000; ++spin)   // pipelined writer: wait until everything is on the wire (max 4 s)
+				{
+					size_t cnt(0);
+					{
+						std::lock_guard<std::mutex> g(gm);
+						for (std::string::size_type p(0); (p = got.find("\00135=D\001", p)) != std::string::npos; ++p) ++cnt;
+					}
+					if (cnt >= want) break;
+					usleep(1000);
+				}
+				usleep(2000);
+				stop_reader = true;
+				rd.join();
+				g_prefetched = got;
+				emit(w, "SendPar", pre, "\"threads\":" + std::to_string(nt) + ",\"per\":" + std::to_string(per) + ",\"batch\":" + std::to_string(bs), true);
+			}
 			else if (c == "sendadmin")   // sendadmin testreq <id> | heartbeat | logout | resend <b> <e> | seqreset <n> <gf>
 			{
 				const std::string pre(state_json(w));
@@ -445,6 +518,10 @@ int main(int argc, char **argv)
 				emit(w, "Restart", pre, "", true);
 			}
 			else if (c == "outhex") { g_outhex = t[1] == "on"; }
+			else if (c == "peerclose")   // the counterparty's end goes away: the session's next socket write fails
+			{
+				if (w.peerfd >= 0) { drain(w); close(w.peerfd); w.peerfd = -1; }
+			}
 			else if (c == "reconnect")   // same session object, new connection (what ReliableClientSession does)
 			{
 				const std::string pre(state_json(w));
